@@ -48,6 +48,9 @@ var c20Kinds = []struct {
 	// WithSchema: 'a' is missing in a fifth of the rows and has a default, 'zz' is never present
 	{"schema_default", "SELECT id, a, zz FROM stream", false, false},
 	{"unnest_objects", "SELECT id, unnest(l) AS e FROM stream", false, false},
+	// array functions over a caller-owned []any (a fifth of the rows carry none): results are new
+	// slices, the caller's is neither reordered nor shared with the result row
+	{"array_funcs", "SELECT id, array_remove(arr, 'b') AS r, array_distinct(arr) AS d, array_union(arr, arr2) AS u, array_except(arr, arr2) AS x FROM stream", false, false},
 }
 
 func genC20Row(rng *simrt.Rand, i int) Row {
@@ -61,6 +64,15 @@ func genC20Row(rng *simrt.Rand, i int) Row {
 	}
 	if rng.Bool(0.2) {
 		delete(row, "a")
+	}
+	if rng.Bool(0.8) {
+		pool := []any{"a", "b", "c", "b", "d", 1, "b"}
+		var arr []any
+		for k := 0; k < 2+rng.Intn(5); k++ {
+			arr = append(arr, pool[rng.Intn(len(pool))])
+		}
+		row["arr"] = arr
+		row["arr2"] = []any{"c", "b", "z"}[:1+rng.Intn(3)]
 	}
 	return row
 }
@@ -145,6 +157,9 @@ var c20PairKinds = []struct{ Name, SQLa, SQLb, TypesB string }{
 	// and strings in the other (facts about an expression remembered per text would leak)
 	{"func_arg_types", "SELECT id, abs(a + b) AS r, round(a + b, 1) AS q FROM stream", "SELECT id, concat(a + b, '!') AS r, upper(a + b) AS q FROM stream", "string"},
 	{"agg_arg_types", "SELECT p, sum(a + b) AS r, count(*) AS c FROM stream GROUP BY p, CountingWindow(2)", "SELECT p, max(a + b) AS r, count(*) AS c FROM stream GROUP BY p, CountingWindow(2)", "string"},
+	// a parameterised aggregate with its parameter in one instance and defaulted in the other
+	// (parameters parsed into a function object shared through the registry would leak)
+	{"agg_param_default", "SELECT p, percentile(a, 0.1) AS r, count(*) AS c FROM stream GROUP BY p, CountingWindow(3)", "SELECT p, percentile(a) AS r, count(*) AS c FROM stream GROUP BY p, CountingWindow(3)", "int"},
 	// expr('...'): an expression string evaluated through the process-wide bridge, per row
 	{"expr_fn", "SELECT id, a, expr('a * 2') AS d FROM stream", "SELECT id, a, expr('a * 2') AS d, expr('a + b') AS e FROM stream", "float"},
 	// two MATCH_RECOGNIZE instances; in one of them the DEFINE conditions cannot be evaluated on
